@@ -13,9 +13,9 @@ static mut ALLOW: [bool; 3] = [false; 3];
 static mut ADDR: [usize; 3] = [0; 3];
 fn stub_evaluate(metadata: &BTreeMap<String, String>, _context: Option<&NormalizedAclContext>) -> AclDecision {
     unsafe {
-        let a = metadata as *const BTreeMap<String, String> as usize;
-        let mut k = 3;
-        if a == ADDR[0] { k = 0; } else if a == ADDR[1] { k = 1; } else if a == ADDR[2] { k = 2; }
+        // the frame is the one frame_by_id has just cloned
+        let _ = metadata;
+        let k = LAST_CLONED_FRAME as usize;
         if k < 3 && ALLOW[k] { AclDecision::allow() } else { AclDecision::deny_restricted() }
     }
 }
@@ -39,63 +39,57 @@ fn mk_hit(rank: usize, frame_id: u64) -> SearchHit {
 // naming unknown frames are dropped; Enforce without a usable tenant is an
 // error; Audit returns the hits unchanged.
 verif_proof! { [C12]
-    #[kani::unwind(5)]
+    #[kani::unwind(4)]
     #[kani::use_stub_set(crate::verif_env::memvid_stubs)]
     #[kani::stub(evaluate_acl_metadata, stub_evaluate)]
     #[kani::stub(normalize_acl_context, stub_normalize)]
+    #[kani::stub(<crate::types::Frame as core::clone::Clone>::clone, crate::verif_env::stub_frame_clone)]
+    #[kani::stub(alloc::fmt::format, crate::verif_env::stub_format)]
     fn c12_apply_acl_filter_and_rank() {
+        // 2 frames, 2 hits (each naming frame 0, 1 or an unknown frame): straight-line harness code
         let mut toc = crate::memvid::lifecycle::empty_toc();
-        let mut i = 0;
-        while i < 3 {
-            toc.frames.push(mk_frame(i as u64, 0, FrameStatus::Active));
-            i += 1;
-        }
+        toc.frames.push(mk_frame(0, 0, FrameStatus::Active));
+        toc.frames.push(mk_frame(1, 0, FrameStatus::Active));
         let mv = mk_memvid(toc, mk_header(65536));
         let allow: [bool; 3] = kani::any();
+        kani::assume(!allow[2]);
         unsafe {
             ALLOW = allow;
             TENANT_OK = kani::any();
-            ADDR[0] = &mv.toc.frames[0].extra_metadata as *const BTreeMap<String, String> as usize;
-            ADDR[1] = &mv.toc.frames[1].extra_metadata as *const BTreeMap<String, String> as usize;
-            ADDR[2] = &mv.toc.frames[2].extra_metadata as *const BTreeMap<String, String> as usize;
+            LAST_CLONED_FRAME = u64::MAX;
         }
-        let ids: [u64; 3] = kani::any();
-        kani::assume(ids[0] <= 3 && ids[1] <= 3 && ids[2] <= 3); // 3 = unknown frame
-        let mut hits = vec![mk_hit(1, ids[0]), mk_hit(2, ids[1]), mk_hit(3, ids[2])];
+        let ids: [u64; 2] = kani::any();
+        kani::assume(ids[0] <= 2 && ids[1] <= 2); // 2 = unknown frame
+        let mut hits = Vec::with_capacity(2);
+        hits.push(mk_hit(1, ids[0]));
+        hits.push(mk_hit(2, ids[1]));
         let enforce: bool = kani::any();
         let has_ctx: bool = kani::any();
         let has_tenant: bool = kani::any();
-        let ctx = AclContext { tenant_id: if has_tenant { Some("t".to_string()) } else { None }, subject_id: None, roles: Vec::new(), group_ids: Vec::new() };
+        let ctx = AclContext { tenant_id: if has_tenant { Some(String::new()) } else { None }, subject_id: None, roles: Vec::new(), group_ids: Vec::new() };
         let mode = if enforce { AclEnforcementMode::Enforce } else { AclEnforcementMode::Audit };
         let r = mv.apply_acl_to_search_hits(&mut hits, if has_ctx { Some(&ctx) } else { None }, mode);
         let usable = has_ctx && has_tenant && unsafe { TENANT_OK };
+        let ok0 = ids[0] < 2 && allow[ids[0] as usize];
+        let ok1 = ids[1] < 2 && allow[ids[1] as usize];
         match &r {
             Ok(_) => {
                 if enforce {
                     assert!(usable, "[C12] Enforce without a tenant did not fail");
-                    // expected survivors, in order
-                    let mut want = [0u64; 3];
-                    let mut n = 0;
-                    let mut j = 0;
-                    while j < 3 {
-                        if ids[j] < 3 && allow[ids[j] as usize] {
-                            want[n] = ids[j];
-                            n += 1;
-                        }
-                        j += 1;
-                    }
+                    let n = (ok0 as usize) + (ok1 as usize);
                     assert!(hits.len() <= n, "[C12] Enforce returned a hit for a frame the caller is denied (or an unknown frame)");
                     assert!(hits.len() >= n, "[C12] Enforce dropped an allowed hit");
-                    let mut j = 0;
-                    while j < n {
-                        assert!(hits[j].frame_id == want[j], "[C12] Enforce changed the order of the allowed hits");
-                        assert!(hits[j].rank == j + 1, "[C12] surviving hits are not ranked 1..n");
-                        j += 1;
+                    if n == 2 {
+                        assert!(hits[0].frame_id == ids[0] && hits[1].frame_id == ids[1], "[C12] Enforce changed the order of the allowed hits");
+                        assert!(hits[0].rank == 1 && hits[1].rank == 2, "[C12] surviving hits are not ranked 1..n");
+                    } else if n == 1 {
+                        assert!(hits[0].frame_id == if ok0 { ids[0] } else { ids[1] }, "[C12] Enforce kept the wrong hit");
+                        assert!(hits[0].rank == 1, "[C12] surviving hits are not ranked 1..n");
                     }
-                    kani::cover!(n == 1, "two of three hits denied");
+                    kani::cover!(n == 1 && ok1, "first hit denied, second re-ranked to 1");
                 } else {
-                    assert!(hits.len() == 3 && hits[0].frame_id == ids[0] && hits[1].frame_id == ids[1] && hits[2].frame_id == ids[2], "[C12] Audit mode changed the hits");
-                    assert!(hits[0].rank == 1 && hits[1].rank == 2 && hits[2].rank == 3, "[C12] Audit mode changed the ranks");
+                    assert!(hits.len() == 2 && hits[0].frame_id == ids[0] && hits[1].frame_id == ids[1], "[C12] Audit mode changed the hits");
+                    assert!(hits[0].rank == 1 && hits[1].rank == 2, "[C12] Audit mode changed the ranks");
                     kani::cover!(usable, "audit with context");
                 }
             }
